@@ -29,7 +29,7 @@ const allocHintBound = "65536"
 // hint panics at run time).
 func (fr *Frame) makeMap(x *ssa.MakeMap, st *State, rch Term) Val {
 	vc := fr.vc
-	if x.Reserve != nil {
+	if x.Reserve != nil && fr.allocBounded() {
 		n := fr.value(x.Reserve).t()
 		fr.safety("alloc-bound", x, rch, and(sx("<=", "0", n), sx("<=", n, allocHintBound)))
 	}
@@ -178,4 +178,16 @@ func (eng *Engine) errorGlobals() map[*ssa.Global]int {
 		}
 	}
 	return eng.errGlobals
+}
+
+// allocBounded: the alloc-bound obligation belongs to the properties about
+// memory in proportion to the input (C03, C14); elsewhere a reservation is the
+// caller's configuration (e.g. the key cache capacity) and not constrained.
+func (fr *Frame) allocBounded() bool {
+	for _, p := range fr.props {
+		if p == "C14" || p == "C03" {
+			return true
+		}
+	}
+	return false
 }
